@@ -29,7 +29,20 @@ GTF_B = ['c3\ts\texon\t7\t9\t.\t-\t.\tgene_id "G9"; transcript_id "T9";', 'c3\ts
 
 GTF_C = ['c4\ts\tCDS\t7\t9\t.\t+\t0\tgene_id "G4"; transcript_id "T4";', 'c4\ts\tstop_codon\t10\t12\t.\t+\t0\tgene_id "G4"; transcript_id "T4";']
 
+def _big_gff():
+    out = []
+    for g in range(20):
+        out.append("c1\ts\tgene\t%d\t%d\t.\t+\t.\tID=G%d" % (1 + 10000 * g, 9999 + 10000 * g, g))
+        for m in range(60):
+            out.append("c1\ts\tmRNA\t%d\t%d\t.\t+\t.\tID=G%dM%d;Parent=G%d" % (1 + 10000 * g, 9999 + 10000 * g, g, m, g))
+            for e in range(10):
+                st = 1 + 10000 * g + 900 * e
+                out.append("c1\ts\texon\t%d\t%d\t.\t+\t.\tParent=G%dM%d" % (st, st + 100, g, m))
+    return out
+
+
 JOBS = {
+    "gffBIG": ("path", _big_gff()),          # 12000 second-level relations: larger than any internal batch
     "gtfC": ("path", GTF_C),
     "gffA": ("path", GFF_A), "gffB": ("path", GFF_B), "gtfA": ("path", GTF_A), "gtfB": ("path", GTF_B),
     "gffA_str": ("string", GFF_A),
@@ -124,7 +137,7 @@ def run_imports(ch, ctx, jobs):
     children, schedule, stats = sched.run_schedule(ch, fns, shared)
     sig = dict(jobs="+".join(jobs))
     ctx.check(not pre, "temp-files-left-behind", dict(sig, only_from_string_copies=False, by="solitary warm-up import"), left=pre)
-    interleaved = stats["switches"] > len(jobs) - 1
+    interleaved = stats["switches"] > len(jobs) - 1 or len(jobs) == 1
     collided = any(op == "os.open+excl" and sum(1 for c in children for o in c.trace if o == (op, arg)) > 1
                    for c in children for (op, arg) in c.trace)
     ctx.nontrivial(interleaved)
@@ -190,6 +203,7 @@ def shards(tier):
     out = [("imports2", s, (a, b)) for s in SETS2 for a in (0, 1) for b in (0, 1)]
     out += [("imports3", s, (a, b)) for s in SETS3 for a in (0, 1, 2) for b in (0, 1, 2)]
     out += [("readers", n, (a, b)) for n in READERS for a in range(n) for b in range(n)]
+    out.append(("imports1", ("gffBIG",), ()))
     return out
 
 
@@ -234,7 +248,7 @@ def run(tier, seed):
     b = dev_bound(tier)
     allsh = shards(tier)
     groups = [
-        ("imports2", [s for s in allsh if s[0] == "imports2"], None),
+        ("imports2", [s for s in allsh if s[0] in ("imports2", "imports1")], None),
         ("imports3", [s for s in allsh if s[0] == "imports3"], b["imports3"]),
         ("readers2", [s for s in allsh if s[0] == "readers" and s[1] == 2], b["readers2"]),
         ("readers3", [s for s in allsh if s[0] == "readers" and s[1] == 3], b["readers3"]),
